@@ -12,7 +12,8 @@ META = {
 def run(ctx):
     q = ctx.quick()
     design = [{"steps": 6 if q else 7, "universe": "Small", "crash": True, "invariants": ["C02_SignOnce"], "witnesses": 60 if q else 600}]
-    plans = [{"universe": "Small", "rich": False, "sim": 15 if q else 120, "steps": 9 if q else 11, "crash": True, "cap": 250 if q else 4000, "seeds": 1 if q else 3},
+    plans = [{"cover": True, "universe": "Small", "steps": 4 if q else 5, "crash": True, "cap": 4000 if q else None},
+             {"universe": "Small", "rich": False, "sim": 15 if q else 120, "steps": 9 if q else 11, "crash": True, "cap": 250 if q else 4000, "seeds": 1 if q else 3},
              {"universe": "", "rich": True, "sim": 4 if q else 40, "steps": 8 if q else 10, "crash": False, "cap": 150 if q else 3000, "seeds": 1 if q else 2}]
     cov, mismatches, inconcl = smcheck.collect(ctx, {"C02"}, plans, design)
     rc = ctx.finish("model_checking", extra_cov=cov)
